@@ -263,22 +263,27 @@ func (s *Rtmp2MpegtsRemuxer) feedVideo(msg base.RtmpMsg) {
 		//
 		// TODO(chef): rtmp转其他类型的模块也存在这个问题，应该抽象出一个统一处理的地方
 		//
+		// in-band的sps pps(vps)保留在原位置输出（之前是直接丢弃，只在之后的IDR前用缓存补回：
+		// 单独的pps、非IDR关键帧前的sps pps就丢失了），同时更新缓存
+		isParamSet := false
 		if codecId == base.RtmpCodecIdAvc {
 			if nalType == avc.NaluTypeAud {
 				continue
 			} else if nalType == avc.NaluTypeSps {
 				sps = nal
-				continue
+				isParamSet = true
 			} else if nalType == avc.NaluTypePps {
 				pps = nal
+				isParamSet = true
 				if len(sps) != 0 && len(pps) != 0 {
 					s.spspps = s.spspps[0:0]
 					s.spspps = append(s.spspps, avc.NaluStartCode4...)
 					s.spspps = append(s.spspps, sps...)
 					s.spspps = append(s.spspps, avc.NaluStartCode4...)
 					s.spspps = append(s.spspps, pps...)
+					// 完整的一组已经在本帧内输出了，紧跟的关键帧前不需要再追加一份
+					spsppsSent = true
 				}
-				continue
 			}
 		} else if codecId == base.RtmpCodecIdHevc {
 			if nalType == hevc.NaluTypeSei || nalType == hevc.NaluTypeSeiSuffix {
@@ -289,12 +294,13 @@ func (s *Rtmp2MpegtsRemuxer) feedVideo(msg base.RtmpMsg) {
 				continue
 			} else if nalType == hevc.NaluTypeVps {
 				vps = nal
-				continue
+				isParamSet = true
 			} else if nalType == hevc.NaluTypeSps {
 				sps = nal
-				continue
+				isParamSet = true
 			} else if nalType == hevc.NaluTypePps {
 				pps = nal
+				isParamSet = true
 				if len(vps) != 0 && len(sps) != 0 && len(pps) != 0 {
 					s.spspps = s.spspps[0:0]
 					s.spspps = append(s.spspps, avc.NaluStartCode4...)
@@ -303,8 +309,8 @@ func (s *Rtmp2MpegtsRemuxer) feedVideo(msg base.RtmpMsg) {
 					s.spspps = append(s.spspps, sps...)
 					s.spspps = append(s.spspps, avc.NaluStartCode4...)
 					s.spspps = append(s.spspps, pps...)
+					spsppsSent = true
 				}
-				continue
 			}
 		}
 
@@ -322,7 +328,9 @@ func (s *Rtmp2MpegtsRemuxer) feedVideo(msg base.RtmpMsg) {
 		}
 
 		// 关键帧前追加sps pps
-		if codecId == base.RtmpCodecIdAvc {
+		if isParamSet {
+			// sps pps(vps)自身不影响spsppsSent标志
+		} else if codecId == base.RtmpCodecIdAvc {
 			// h264的逻辑，一个tag中，多个连续的关键帧只追加一个，不连续则每个关键帧前都追加。为什么要这样处理
 			switch nalType {
 			case avc.NaluTypeIdrSlice:
